@@ -363,3 +363,22 @@ Fixpoint walked_later (neg : bool) (sts : list nat) (a : nat -> bool) (es : list
    inactive under the told activity *)
 Definition told_cond (neg : bool) (sts : list nat) (a : nat -> bool) : bool :=
   forallb (fun x => Bool.eqb (a x) (negb neg)) sts.
+
+Definition when_op (neg : bool) (sts : list nat) (ctx : option nat) : sop :=
+  if neg then OWhenNot sts ctx else OWhen sts ctx.
+
+(* some later processSubscriptions ran with a queue tick satisfying c *)
+Fixpoint processed_with (c : N -> bool) (es : list sevent) : bool :=
+  match es with
+  | [] => false
+  | EProcess _ _ _ _ qt :: r => c qt || processed_with c r
+  | _ :: r => processed_with c r
+  end.
+
+(* some later ProcessStateCtx listed state x as activated or deactivated *)
+Fixpoint ctx_touched (x : nat) (es : list sevent) : bool :=
+  match es with
+  | [] => false
+  | EStateCtx act deact :: r => mem x (act ++ deact) || ctx_touched x r
+  | _ :: r => ctx_touched x r
+  end.
